@@ -15,9 +15,13 @@ SYMF, BM = "renormalizer/mps/symbolic_mpo.py", "renormalizer/lib/bipartite_match
 PRIMES = [2, 3, 5, 7, 11, 13, 17, 19, 23, 29, 31, 37, 41, 43]
 
 
-class _Op:
+class _Op(Sym):
     def __init__(self, symbol, qn, factor=1):
+        super().__init__("OpTuple")
         self.symbol, self.qn, self.factor = symbol, qn, factor
+
+    def _replace(self, **kw):
+        return _Op(kw.get("symbol", self.symbol), kw.get("qn", self.qn), kw.get("factor", self.factor))
 
     def __repr__(self):
         return f"OpTuple({self.symbol}, factor={self.factor})"
@@ -235,3 +239,395 @@ def qr_rule(chk, src, rule, rule_shortcut=None):
                "sum_l (sum_j q[j,l] L_j) x (sum_k r[l,k] R_k) = the coefficient matrix given", line=fi.node.lineno,
                detail="the factorisation (or the shortcut q = gamma, r = [[1]], p = [0], valid for a single column only) must reproduce every coefficient: with more than one column "
                       "r = [[1]] drops every column but the first, i.e. all terms whose right part is not the first unique right operator: " + (probs[0] if probs else ""))
+
+
+# ------------------------------------------------------------------------------------------ whole builders on exact term tables (graph algorithms)
+TTNOB = "renormalizer/tn/symbolic_ttno.py"
+# primary operators: index -> quantum number (0 is the identity); every term table below has total quantum number 0
+PRIMARY_QN = {0: 0, 1: 1, 2: -1, 3: 0}
+
+
+def _tables(nsite):
+    """term tables over nsite columns: primary-operator indices per site, rows distinct, coefficients distinct primes"""
+    def pad(rows):
+        return [tuple(list(r) + [0] * (nsite - len(r)))[:nsite] for r in rows]
+    out = []
+    out.append(("single term", pad([(1, 2)])))
+    out.append(("nearest-neighbour hopping and on-site terms", [tuple(1 if j == i else 2 if j == i + 1 else 0 for j in range(nsite)) for i in range(nsite - 1)]
+                + [tuple(2 if j == i else 1 if j == i + 1 else 0 for j in range(nsite)) for i in range(nsite - 1)] + [tuple(3 if j == i else 0 for j in range(nsite)) for i in range(nsite)]))
+    out.append(("one site coupled to all others (shared prefix / shared suffix)", [tuple(1 if j == 0 else 2 if j == i else 0 for j in range(nsite)) for i in range(1, nsite)]
+                + [tuple(2 if j == nsite - 1 else 1 if j == i else 0 for j in range(nsite)) for i in range(0, nsite - 1)]))
+    if nsite >= 4:
+        out.append(("long-range pairs and a four-site string", [tuple(1 if j == a else 2 if j == b else 0 for j in range(nsite)) for a in range(nsite) for b in range(nsite) if a < b and (a + b) % 2 == 1]
+                    + [tuple([1, 2, 1, 2] + [0] * (nsite - 4))] + [tuple([0] * nsite)]))
+    res = []
+    for name, rows in out:
+        rows = list(dict.fromkeys(rows))
+        res.append((name, rows, PRIMES[:len(rows)] if len(rows) <= len(PRIMES) else [PRIMES[i % len(PRIMES)] + 47 * (i // len(PRIMES)) for i in range(len(rows))]))
+    return res
+
+
+def _qnval(q):
+    if isinstance(q, xnp.XA):
+        vals = set(q.flat)
+        if len(vals) > 1:
+            raise AnalysisError(f"quantum number with several components {q!r} in a one-component run")
+        return vals.pop() if vals else 0
+    return q
+
+
+def _primary_ops():
+    return [Sym(f"primary{i}", qn=q) for i, q in sorted(PRIMARY_QN.items())]
+
+
+def _expand(out_ops, child_values, nphys, positions):
+    """value of every out operator of one node: {string (dict position -> primary index, as a sorted tuple): coefficient}; child_values = values of the incoming bonds, in order"""
+    vals, probs, qns = [], [], []
+    for l_, comp in enumerate(out_ops):
+        acc = {}
+        qn_here = set()
+        for t in comp:
+            sym = [int(x) for x in t.symbol]
+            if len(sym) != len(child_values) + nphys:
+                probs.append(f"out operator {l_}: symbol {sym} for {len(child_values)} incoming bond(s) and {nphys} physical column(s)")
+                continue
+            parts = [{(): Fr(t.factor)}]
+            ok = True
+            for cv, idx in zip(child_values, sym[:len(child_values)]):
+                if not 0 <= idx < len(cv):
+                    probs.append(f"out operator {l_}: incoming operator {idx} of {len(cv)}")
+                    ok = False
+                    break
+                parts.append(cv[idx])
+            if not ok:
+                continue
+            phys = tuple((positions[j], sym[len(child_values) + j]) for j in range(nphys))
+            cur = {(): Fr(1)}
+            for part in parts:
+                nxt = {}
+                for s1, c1 in cur.items():
+                    for s2, c2 in part.items():
+                        key = tuple(sorted(s1 + s2))
+                        nxt[key] = nxt.get(key, 0) + c1 * c2
+                cur = nxt
+            for s1, c1 in cur.items():
+                key = tuple(sorted(s1 + phys))
+                acc[key] = acc.get(key, 0) + c1
+            qn_here.add(_qnval(t.qn))
+        vals.append({k: v for k, v in acc.items() if v != 0})
+        qns.append(qn_here)
+    return vals, probs, qns
+
+
+def _string_qn(key):
+    return sum(PRIMARY_QN[p] for _, p in key)
+
+
+def _judge(values_root, rows, facs, npos, probs, qn_sets, allvals):
+    total = {}
+    for v in values_root:
+        for k, c in v.items():
+            total[k] = total.get(k, 0) + c
+    total = {k: c for k, c in total.items() if c != 0}
+    want = {tuple(sorted((j, r[j]) for j in range(npos))): Fr(f) for r, f in zip(rows, facs)}
+    if total != want:
+        miss = [dict(k) for k in want if k not in total][:2]
+        extra = [dict(k) for k in total if k not in want][:2]
+        wrong = [(dict(k), str(total[k]), str(want[k])) for k in want if k in total and total[k] != want[k]][:2]
+        probs.append(f"the operator built differs from the term table: missing terms {miss}, terms not in the table {extra}, wrong coefficients (term, built, table) {wrong}")
+    # quantum numbers: every OpTuple of one out operator carries the quantum number of the strings it stands for
+    for (node, l_), (qs, val) in allvals.items():
+        want_q = {_string_qn(k) for k in val}
+        if len(qs) > 1 or (val and qs and qs != want_q and len(want_q) == 1):
+            probs.append(f"out operator {l_} of {node}: quantum numbers {sorted(qs)} attached, its strings carry {sorted(want_q)}")
+            break
+
+
+def chain_builder_rule(chk, src, rule):
+    """_construct_symbolic_mpo as a whole (table with the two sentinel columns, as construct_symbolic_mpo prepares it) with the graph decompositions: the product of the
+    per-bond out operators, expanded, is the term table with its coefficients"""
+    fi = src.func(SYMF, "_construct_symbolic_mpo")
+    for nsite in (2, 3, 4, 5):
+        for name, rows, facs in _tables(nsite):
+            if len(rows) < 2:
+                continue        # one-row tables take the fast path of construct_symbolic_mpo (decided by `out-ops-shape`)
+            for algo in ("Hopcroft-Karp", "Hungarian"):
+                table = xnp.XA([[0] + list(r) + [0] for r in rows])
+                factor = xnp.XA([Fr(f) for f in facs])
+                it = _interp(src, {"scipy": Sym("scipy", sparse=xnp.sparse_namespace())})
+                it.builtins.pop("_compute_qn")
+                it.max_depth = 12
+                probs, res = [], None
+                try:
+                    res = it.call_function(fi, [table, [[_Op([0], 0, 1)]], factor, _primary_ops(), algo])
+                except (SymRaise, IndexError, ValueError, AssertionError, ZeroDivisionError, KeyError) as e:
+                    probs.append(f"{type(e).__name__}: {e}")
+                if res is not None:
+                    if not isinstance(res, list) or len(res) != nsite + 1:
+                        probs.append(f"{len(res) if isinstance(res, list) else res!r} bond operator lists for {nsite} sites")
+                    else:
+                        vals = [{(): Fr(1)}]
+                        allvals = {}
+                        # bond b > 0 is built from bond b - 1 and site b - 1 (the leading sentinel column belongs to the incoming dummy operator, the trailing one is never a site)
+                        for b in range(1, len(res)):
+                            v, pr, qns = _expand(res[b], [vals], 1, [b - 1])
+                            probs.extend(pr)
+                            for l_, (vv, qq) in enumerate(zip(v, qns)):
+                                allvals[(f"bond {b}", l_)] = (qq, vv)
+                            vals = v
+                        if len(vals) != 1:
+                            probs.append(f"{len(vals)} operators on the last bond")
+                        _judge(vals, rows, facs, nsite, probs, None, allvals)
+                chk.ob(rule, f"_construct_symbolic_mpo[{nsite} sites, {name}, {algo}]", not probs, fi.where, probs[:2] or f"{len(rows)} terms reproduced", "expanded product of the bond operators = the term table",
+                       line=fi.node.lineno, detail="the symbolic MPO must stand for sum_k c_k x (product of the local operators of term k): " + (probs[0] if probs else ""))
+
+
+class _TNode(Sym):
+    def __init__(self, name, n_sets):
+        super().__init__(name)
+        self.name, self.n_sets, self.children, self.parent = name, n_sets, [], None
+        self.basis_sets = [f"{name}.b{k}" for k in range(n_sets)]
+
+    def __repr__(self):
+        return self.name
+
+
+def _mk_tree(spec):
+    nodes = {}
+    for name, nsets, parent in spec:
+        n = _TNode(name, 1 if nsets == "dummy" else nsets)
+        n.dummy = nsets == "dummy"
+        nodes[name] = n
+        if parent:
+            nodes[parent].children.append(n)
+            n.parent = nodes[parent]
+    order = []
+
+    def post(x):
+        for c in x.children:
+            post(c)
+        order.append(x)
+    post(nodes[spec[0][0]])
+    return order
+
+
+TREES = [
+    ("chain of 3", [("r", 1, None), ("a", 1, "r"), ("b", 1, "a")]),
+    ("root in the middle of a chain", [("r", 1, None), ("a", 1, "r"), ("b", 1, "r")]),
+    ("binary, two levels", [("r", 1, None), ("a", 1, "r"), ("b", 1, "r"), ("a1", 1, "a"), ("a2", 1, "a")]),
+    ("ternary root, node with two basis sets", [("r", 1, None), ("a", 2, "r"), ("b", 1, "r"), ("c", 1, "r")]),
+    ("inner node with a dummy basis set (always the identity)", [("r", 1, None), ("m", "dummy", "r"), ("x", 1, "m"), ("y", 1, "m"), ("z", 1, "r")]),
+    ("dummy root", [("r", "dummy", None), ("a", 1, "r"), ("b", 1, "r"), ("c", 1, "b")]),
+    ("root with two basis sets above a chain", [("r", 2, None), ("a", 1, "r"), ("b", 1, "a"), ("c", 1, "b")]),
+]
+
+
+def tree_builder_rule(chk, src, rule):
+    """construct_symbolic_ttno as a whole on small trees (graph decompositions): the operators on the bond above every node, expanded over the sub-tree, and finally
+    the root's single operator, stand for the term table - for every topology the same operator"""
+    fi = src.func(TTNOB, "construct_symbolic_ttno")
+    for tname, spec in TREES:
+        order = _mk_tree(spec)
+        basis = [b for n in order for b in n.basis_sets]
+        npos = len(basis)
+        dummies = [basis.index(b) for n in order if n.dummy for b in n.basis_sets]
+        for name, rows, facs in _tables(npos):
+            # a dummy basis set only ever carries the identity
+            rows = list(dict.fromkeys(tuple(0 if j in dummies else v for j, v in enumerate(r)) for r in rows))
+            rows = [r for r in rows if sum(PRIMARY_QN[v] for v in r) == 0]
+            facs = facs[:len(rows)]
+            for algo in ("Hopcroft-Karp", "Hungarian"):
+                table = xnp.XA([list(r) for r in rows])
+                factor = xnp.XA([Fr(f) for f in facs])
+                prim = _primary_ops()
+                composed = []
+                it = _interp(src, {"scipy": Sym("scipy", sparse=xnp.sparse_namespace()), "chain": lambda *a: [x for part in a for x in part],
+                                   "Model": lambda b_, terms: Sym("model", basis=list(b_), qn_size=1),
+                                   "_terms_to_table": lambda model, terms, const, table=table, factor=factor, prim=prim: (table, prim, factor),
+                                   "compose_symbolic_mo_general": lambda in_ops_list, out_ops, primary_ops, k: composed.append((in_ops_list, out_ops, k)) or "mo"})
+                it.builtins.pop("_compute_qn")
+                it.max_depth = 12
+                tn = Sym("tn", postorder_list=lambda order=order: list(order))
+                probs, res = [], None
+                try:
+                    res = it.call_function(fi, [tn, "terms", 0, algo])
+                except (SymRaise, IndexError, ValueError, AssertionError, ZeroDivisionError, KeyError) as e:
+                    probs.append(f"{type(e).__name__}: {e}")
+                if res is not None:
+                    if len(composed) != len(order):
+                        probs.append(f"{len(composed)} node operators composed for {len(order)} nodes")
+                    else:
+                        values, allvals = {}, {}
+                        for node, (in_ops_list, out_ops, k) in zip(order, composed):
+                            kids = node.children
+                            if len(in_ops_list) != len(kids):
+                                probs.append(f"node {node}: {len(in_ops_list)} incoming operator lists for {len(kids)} children")
+                                break
+                            # which child does every incoming list belong to: by identity with that child's outgoing list
+                            cv = []
+                            for c, lst in zip(kids, in_ops_list):
+                                own = [n for n, (_, o, _) in zip(order, composed) if o is lst]
+                                if own != [c]:
+                                    probs.append(f"node {node}: the incoming operators at the position of child {c} are those of {own}")
+                                cv.append(values.get(own[0] if own else c, []))
+                            if k != node.n_sets:
+                                probs.append(f"node {node}: composed with k = {k}, the node has {node.n_sets} basis set(s)")
+                                break
+                            pos = [basis.index(b) for b in node.basis_sets]
+                            if not kids:
+                                # a leaf sees the dummy incoming operator in front of its physical columns
+                                v, pr, qns = _expand(out_ops, [[{(): Fr(1)}]], node.n_sets, pos)
+                            else:
+                                v, pr, qns = _expand(out_ops, cv, node.n_sets, pos)
+                            probs.extend(pr)
+                            values[node] = v
+                            for l_, (vv, qq) in enumerate(zip(v, qns)):
+                                allvals[(f"node {node}", l_)] = (qq, vv)
+                        if not probs:
+                            root = order[-1]
+                            if len(values[root]) != 1:
+                                probs.append(f"the root carries {len(values[root])} operators towards a parent it does not have")
+                            _judge(values[root], rows, facs, npos, probs, None, allvals)
+                chk.ob(rule, f"construct_symbolic_ttno[{tname}, {name}, {algo}]", not probs, fi.where, probs[:2] or f"{len(rows)} terms reproduced", "expanded root operator = the term table",
+                       line=fi.node.lineno, detail=f"on the tree '{tname}' the symbolic tree operator must stand for sum_k c_k x (product of the local operators of term k), as on every other "
+                       "topology: " + (probs[0] if probs else ""))
+
+
+# ------------------------------------------------------------------------------------------ blocked diagonalisation of the state-averaged density matrix
+def eigh_qn_rule(chk, src, rule):
+    """eigh_qn as a whole on exact data: a density matrix that is diagonal inside every sector (so that the oracle for scipy.linalg.eigh is a sort), row labels with positive,
+    zero and negative charges, the complementary labels of the other side.  Every sector that has a partner on the other side (total - sector present there) must be
+    diagonalised: its rows are spanned by the returned columns, each column lives on the rows of one sector and carries that sector's label, the returned singular values are
+    the square roots of the eigenvalues in the same column order; sectors without a partner are dropped"""
+    SV = "renormalizer/mps/svd_qn.py"
+    fi = src.func(SV, "eigh_qn")
+
+    def eigh(block, **k):
+        b = xnp.asx(block)
+        n = b.shape[0]
+        rows = b.tolist()
+        if any(rows[i][j] != 0 for i in range(n) for j in range(n) if i != j):
+            raise AnalysisError("the oracle for scipy.linalg.eigh only knows diagonal blocks")
+        order = sorted(range(n), key=lambda i: (rows[i][i], i))
+        return xnp.XA([rows[i][i] for i in order]), xnp.XA([[1 if order[k] == i else 0 for k in range(n)] for i in range(n)])
+    cases = [
+        # name, row labels, labels of the complementary side, total, diagonal of the density matrix, system
+        ("charges of both signs, system L", [1, -1, 1, -1, 0], [-1, 1, 1], 0, [4, 9, 16, 25, 36], "L"),
+        ("charges of both signs, system R", [1, -1, 1, -1, 0], [-1, 1, 1], 0, [4, 9, 16, 25, 36], "R"),
+        ("non-negative charges, one sector without partner", [0, 1, 2, 1], [0, 1], 1, [1, 4, 9, 16], "L"),
+        ("negative total", [0, -1, -2, -1], [0, -1, -1], -2, [1, 4, 9, 16], "L"),
+    ]
+    for name, ql, qc, tot, diag, system in cases:
+        n = len(ql)
+        dm = xnp.XA([[diag[i] if i == j else 0 for j in range(n)] for i in range(n)])
+        qbig, qcomp = xnp.XA([[q] for q in ql]), xnp.XA([[q] for q in qc])
+        it = _interp(src, {"scipy": Sym("scipy", linalg=Sym("scipy.linalg", eigh=eigh))})
+        it.max_depth = 10
+        args = [dm, qbig, qcomp, xnp.XA([tot]), system] if system == "L" else [dm, qcomp, qbig, xnp.XA([tot]), system]
+        probs, res = [], None
+        try:
+            res = it.call_function(fi, args)
+        except (SymRaise, IndexError, ValueError, AssertionError, KeyError) as e:
+            probs.append(f"{type(e).__name__}: {e}")
+        if res is not None:
+            try:
+                u, s_, new_qn = res
+                u, s_ = xnp.asx(u), xnp.asx(s_).flatten()
+                labels = [int(_qnval(xnp.asx(q)) if not isinstance(q, (int,)) else q) for q in new_qn]
+            except (TypeError, ValueError, AnalysisError) as e:
+                probs.append(f"returns {str(res)[:80]} ({e})")
+                u = None
+            if u is not None:
+                keep = [i for i in range(n) if (tot - ql[i]) in qc]
+                cols = u.T.tolist() if u.ndim == 2 else []
+                if u.ndim != 2 or u.shape[0] != n or not (len(cols) == s_.size == len(labels)):
+                    probs.append(f"u of shape {u.shape}, {s_.size} singular values, {len(labels)} labels for {n} rows")
+                else:
+                    covered = set()
+                    for k, col in enumerate(cols):
+                        supp = [i for i, v in enumerate(col) if v != 0]
+                        if len(supp) != 1 or col[supp[0]] not in (1, -1):
+                            probs.append(f"column {k} = {col}: a diagonal block has unit eigenvectors")
+                            break
+                        i = supp[0]
+                        if ql[i] != labels[k]:
+                            probs.append(f"column {k} lives on row {i} (label {ql[i]}) and carries the label {labels[k]}")
+                        if Fr(s_.flat[k]) ** 2 != diag[i]:
+                            probs.append(f"column {k} (row {i}, eigenvalue {diag[i]}) comes with the singular value {s_.flat[k]}")
+                        covered.add(i)
+                    if not probs and covered != set(keep):
+                        probs.append(f"rows spanned by the returned basis: {sorted(covered)}; rows of the sectors that have a partner (total - label among {sorted(set(qc))}): {keep}")
+        chk.ob(rule, f"eigh_qn[{name}]", not probs, fi.where, probs[:2] or "every sector with a partner diagonalised", "columns = eigenvectors of every sector that has a partner, with its label and sqrt(eigenvalue)",
+               line=fi.node.lineno, detail="the renormalised basis of a multi-root update must span every symmetry sector the state can occupy, whatever the sign of the charges: " + (probs[0] if probs else ""))
+
+
+# ------------------------------------------------------------------------------------------ product-state constructor: one sector per site
+def hartree_rule(chk, src, rule):
+    """Mps.hartree_product_state as a whole on exact data: a coefficient vector given for a site may only occupy local states of one quantum number (otherwise the state is
+    not in any sector: ValueError); integer occupations and vectors inside one sector are accepted and the bond labels are the running sums of the occupied quantum numbers"""
+    MPSF = "renormalizer/mps/mps.py"
+    fi = src.func(MPSF, "Mps.hartree_product_state")
+    half = Fr(1, 2)
+
+    class Site(Sym):
+        def __init__(self, shape):
+            super().__init__("site tensor")
+            self.shape, self.writes = tuple(shape), []
+
+        def __setitem__(self, k, v):
+            self.writes.append((k, v))
+
+    def run(basis, condition, qn_size):
+        sites = {}
+        events = []
+
+        class New(Sym):
+            def __setitem__(self, i, v):
+                sites[i] = v
+        new = New("mps", build_empty_mp=lambda n: events.append(("empty", n)), move_qnidx=lambda k: events.append(("move_qnidx", k)))
+        npx = xnp.namespace()
+        z0 = npx.__dict__["zeros"]
+        npx.__dict__["zeros"] = lambda shape, *a, **k: Site(shape) if isinstance(shape, (tuple, list)) and len(shape) == 3 else z0(shape, *a, **k)
+        it = SymInterp(src, None, {"np": npx, "isinstance": lambda x, t: isinstance(x, t) and not (t is int and isinstance(x, bool)) if isinstance(t, type) else False})
+        model = Sym("model", nsite=len(basis), qn_size=qn_size, basis=[Sym(f"basis{i}", nbas=len(sq), sigmaqn=xnp.XA(sq)) for i, (_, sq) in enumerate(basis)],
+                    dof_to_siteidx={d: i for i, (d, _) in enumerate(basis)})
+        out = it.call_function(fi, [lambda: new, model, dict(condition)])
+        return out, new, sites, events
+    one = [("e", [[0], [1]]), ("v", [[0], [0], [0]]), ("me", [[0], [1], [1]])]
+    two = [("a", [[0, 0], [1, 0], [0, 1]]), ("b", [[0, 0], [1, 0], [1, 0]])]
+    cases = [
+        ("integer occupations", one, {"e": 1, "me": 2}, 1, [[0], [1], [1], [2]]),
+        ("vector inside one sector (vibration)", one, {"e": 1, "v": [0, half, half]}, 1, [[0], [1], [1], [1]]),
+        ("vector inside one sector (two degenerate electronic states)", one, {"me": [0, half, half]}, 1, [[0], [0], [0], [1]]),
+        ("vector mixing charge 0 and 1 on a two-level site", one, {"e": [half, half]}, 1, ValueError),
+        ("vector mixing the vacuum with an occupied state", one, {"me": [half, 0, half]}, 1, ValueError),
+        ("two-component charges: vector on one state", two, {"a": [0, half, 0]}, 2, [[0, 0], [1, 0], [1, 0]]),
+        ("two-component charges: vector inside the sector (1, 0)", two, {"b": [0, half, half]}, 2, [[0, 0], [0, 0], [1, 0]]),
+        ("two-component charges: vector mixing (1, 0) and (0, 1)", two, {"a": [0, half, half]}, 2, ValueError),
+    ]
+    for name, basis, cond, qs, want in cases:
+        probs = []
+        try:
+            out, new, sites, events = run(basis, cond, qs)
+            if want is ValueError:
+                probs.append(f"accepted; the state is labelled {[xnp.asx(q).tolist() for q in getattr(out, 'qn', [])]} although the site vector occupies local states of different quantum numbers")
+            else:
+                qn = [xnp.asx(q).tolist()[0] for q in out.qn]
+                if qn != want and [q for q in qn] != want:
+                    # the labels are stored at the requested centre: before move_qnidx they are the running sums from the left
+                    probs.append(f"bond labels {qn}; expected the running sums {want}")
+                if xnp.asx(out.qntot).tolist() != want[-1]:
+                    probs.append(f"total quantum number {xnp.asx(out.qntot).tolist()}; expected {want[-1]}")
+                if sorted(sites) != list(range(len(basis))):
+                    probs.append(f"sites written: {sorted(sites)}")
+        except SymRaise as e:
+            if want is not ValueError:
+                probs.append(f"rejected: {e}")
+            elif "ValueError" not in str(e):
+                probs.append(f"raises {e}; expected ValueError")
+        except (IndexError, TypeError, ValueError) as e:
+            probs.append(f"{type(e).__name__}: {e}")
+        chk.ob(rule, f"hartree_product_state[{name}]", not probs, fi.where, probs[:2] or ("rejected" if want is ValueError else "accepted, labels = running sums"),
+               "ValueError" if want is ValueError else f"labels {want}", line=fi.node.lineno,
+               detail="a product state handed out with bond labels must lie in the sector the labels describe: a site vector spread over local states of different quantum numbers has "
+                      "amplitude outside every sector, which later canonicalisation / compression silently drops: " + (probs[0] if probs else ""))
